@@ -77,7 +77,7 @@ class Res:
             self.err = ln.split(' ')[1]
         elif ln == 'panic':
             self.kind = 'panic'
-        elif ln == 'hang':
+        elif ln == 'hang' or ln.startswith('HANG'):
             self.kind = 'hang'
         elif ln.startswith('CRASH'):
             self.kind = 'crash'
@@ -194,51 +194,11 @@ def nontrivial_type(sch, tname):
 # ------------------------------------------------------------------ running the driver (crash isolating)
 
 def run_driver(binary, lines, shards=None, timeout=900, args=()):
-    """like core.run_lines, but a process that dies (abort, stack overflow, allocation failure) only costs the
-    line it was working on: that line gets 'CRASH ...', the remaining lines of the shard are fed to a fresh process"""
-    import subprocess, threading
-    if not lines:
-        return []
-    shards = shards or min(core.NPROC, max(1, len(lines) // 150))
-    idx = [list(range(i, len(lines), shards)) for i in range(shards)]
-    out = [None] * len(lines)
-
-    def work(ix):
-        pos = 0
-        while pos < len(ix):
-            chunk = ix[pos:]
-            p = subprocess.Popen([binary] + list(args), stdin=subprocess.PIPE, stdout=subprocess.PIPE,
-                                 stderr=subprocess.DEVNULL, text=True, env=core.ENV)
-            try:
-                o, _ = p.communicate('\n'.join(lines[j] for j in chunk) + '\n', timeout=timeout)
-                r = o.split('\n')
-                if r and r[-1] == '':
-                    r.pop()
-            except subprocess.TimeoutExpired:
-                p.kill()
-                o, _ = p.communicate()
-                r = (o or '').split('\n')
-                if r and r[-1] == '':
-                    r.pop()
-                for j, line in zip(chunk, r):
-                    out[j] = line
-                if len(r) < len(chunk):
-                    out[chunk[len(r)]] = 'CRASH timeout'
-                pos += len(r) + 1
-                continue
-            for j, line in zip(chunk, r):
-                out[j] = line
-            if len(r) < len(chunk):
-                out[chunk[len(r)]] = 'CRASH process died (exit %s)' % p.returncode
-                pos += len(r) + 1
-            else:
-                pos += len(chunk)
-    ths = [threading.Thread(target=work, args=(ix,)) for ix in idx]
-    for t in ths:
-        t.start()
-    for t in ths:
-        t.join()
-    return [o if o is not None else 'CRASH no output' for o in out]
+    """core.run_lines for the driver: a process that dies (abort, stack overflow, allocation failure) only costs the
+    line it was working on (`CRASH ...`), a case without an answer within the stall limit is `HANG ...`; the remaining
+    lines of the shard are fed to a fresh process"""
+    return core.run_lines(binary, lines, shards=shards, timeout=timeout, args=args, per=150,
+                          stall=float(os.environ.get('PV_STALL_S', '30')))
 
 
 # ------------------------------------------------------------------ known-finding classes (decidable on the case)
